@@ -54,8 +54,12 @@ def run(check: Check):
       if isinstance(t, ast.Compare) and isinstance(t.ops[0], ast.Eq) and isinstance(t.comparators[0], ast.Attribute) and txt(
           t.comparators[0].value) == enum.name and uff.param_of(t.left) == unpack.positional_params[0]:
         unpacked[t.comparators[0].attr] = n.ast
+  # a decoder that dispatches some other way (a table of functions keyed by code, match / case) is not read by this rule
+  dispatch_unknown = not unpacked or not packed
   for name in sorted(set(members) | set(packed) | set(unpacked)):
     ok = name in members and name in packed and name in unpacked
+    if not ok and dispatch_unknown:
+      ok = None
     check.ob('R-SIB.ext', pack, f'ext type {name}', ok,
              f'declared={name in members}, packed={name in packed}, unpacked={name in unpacked}: a value written with an '
              f'extension code nobody decodes (or vice versa) does not round-trip')
